@@ -276,4 +276,20 @@ Section Concrete.
     then hits (ixm ix) (ixp nx ix) i * hits (ixm iy) (ixp ny iy) j
          * (vol i j k * ez ix iy iz / (Flit 4 1))
     else 0.
+
+  (* the edge-side operator whose transpose the volume averaging is: each edge
+     averages (factor 1/4) the four neighbour cells, indices clamped exactly as
+     interp_edges_to_vol_averages clamps them (ixm = max 0 (.-1), ixp n = min (n-1) .).
+     On every edge core.amat_x visits (transverse indices < n) this is Me_x /
+     Me_y / Me_z of Model/FIT.v; on the upper boundary edges (transverse index
+     = n) the last cell is taken twice. *)
+  Definition edge_avg_x (ny nz : Z) (eta : A3) (i j k : Z) : K :=
+    (eta i (ixm j) (ixm k) + eta i (ixp ny j) (ixm k)
+     + eta i (ixm j) (ixp nz k) + eta i (ixp ny j) (ixp nz k)) / Flit 4 1.
+  Definition edge_avg_y (nx nz : Z) (eta : A3) (i j k : Z) : K :=
+    (eta (ixm i) j (ixm k) + eta (ixp nx i) j (ixm k)
+     + eta (ixm i) j (ixp nz k) + eta (ixp nx i) j (ixp nz k)) / Flit 4 1.
+  Definition edge_avg_z (nx ny : Z) (eta : A3) (i j k : Z) : K :=
+    (eta (ixm i) (ixm j) k + eta (ixp nx i) (ixm j) k
+     + eta (ixm i) (ixp ny j) k + eta (ixp nx i) (ixp ny j) k) / Flit 4 1.
 End Concrete.
